@@ -8,6 +8,7 @@ CONSTANTS
 INVARIANT ParConsThm
 INVARIANT ParFrontThm
 INVARIANT MachineIsDef
+INVARIANT PartOptThm
 INVARIANT SubSound
 PROPERTY Progress
 CHECK_DEADLOCK FALSE
